@@ -97,7 +97,11 @@ func c21Body(s *verifmc.Sched, kind string, cut int64, nOrdinary int, base strin
 	run.Crash()
 
 	// ---- restart ----
-	re := mcOpenRunNoSetup(dir)
+	var re *mcReopen
+	if pp, site := verifmc.CatchSite(func() { re = mcOpenRunNoSetup(dir) }); pp != nil {
+		report(kind+":restart-panicked:"+site, fmt.Sprintf("SetupNode after crash at commit %d panicked: %v (schedule %s)", cut, pp, strings.Join(s.Trace, " ")))
+		return "restart-panicked"
+	}
 	if re.err != nil {
 		report("restart-failed", fmt.Sprintf("SetupNode after crash at commit %d failed: %v (schedule %s)", cut, re.err, strings.Join(s.Trace, " ")))
 		return "restart-failed"
